@@ -35,6 +35,7 @@ pub fn build_sync(cfg: &Config, reg: &Arc<Registry>, clock: &VerifClock) -> Sync
     if let Some(d) = cfg.tti {
         b = b.time_to_idle(Duration::from_nanos(d));
     }
+    mini_moka::verif::set_shard_amount(cfg.shards.unwrap_or(mini_moka::verif::SHARD_AMOUNT));
     let c = b.build_with_hasher(SimBuildHasher { mode: cfg.hasher });
     c.verif_set_clock(clock);
     c
